@@ -229,6 +229,32 @@ def check_graph(rec, steps, w, lid, g, pos_of, taxonomy, edges):
                     back = ss[b].shortest_path(ss[a], simulate_root=sr)
                     if len(back) != len(got_p):
                         rec.violation('shortest_path-asymmetric', f'{what}: |shortest_path(n{a},n{b})| = {len(got_p)} but |shortest_path(n{b},n{a})| = {len(back)}')
+        # documented defaults: leaving simulate_root out means simulate_root=False, for the functions and the shortcuts
+        def outcome(f, *a, **kw):
+            steps.n = 0
+            try:
+                v = f(*a, **kw)
+            except wn.Error:
+                return 'wn.Error'
+            if isinstance(v, list):
+                return [[key_of(lid, y) for y in x] if isinstance(x, list) else key_of(lid, x) for x in v]
+            return v
+
+        for j in range(n):
+            for name in ('hypernym_paths', 'min_depth', 'max_depth'):
+                for f, args in ((getattr(taxonomy, name), (ss[j],)), (getattr(ss[j], name), ())):
+                    rec.event('default.checked')
+                    if outcome(f, *args) != outcome(f, *args, simulate_root=False):
+                        rec.violation('default-simulate_root', f'{what}: {name}(n{j}) without simulate_root differs from simulate_root=False')
+        for a in range(n):
+            for b in range(n):
+                if not _compatible(pos_of(a), pos_of(b)):
+                    continue
+                for name in ('common_hypernyms', 'lowest_common_hypernyms', 'shortest_path'):
+                    for f, args in ((getattr(taxonomy, name), (ss[a], ss[b])), (getattr(ss[a], name), (ss[b],))):
+                        rec.event('default.checked')
+                        if outcome(f, *args) != outcome(f, *args, simulate_root=False):
+                            rec.violation('default-simulate_root', f'{what}: {name}(n{a}, n{b}) without simulate_root differs from simulate_root=False')
         rec.event('steps.max', 0)
     except StepBudget:
         return
